@@ -39,12 +39,20 @@ def objectives_of(script):
 
 # ---------------------------------------------------------------------------------- C07
 def f42_region(script):
-    """finding F42: with an accessed buffer the assertions are quantified (ConcurrentBuffer: z3 prints "optimization with
-    quantified constraints is not supported") or range over arrays (NonConcurrentBuffer), and z3.Optimize now and then
-    returns a non-optimal model; the built-in optimiser is not compared there"""
+    """findings F42 / F44: where z3.Optimize now and then returns a valid but non-optimal model, the built-in optimiser is
+    not compared.  F42: with an accessed buffer the assertions are quantified (ConcurrentBuffer: z3 prints "optimization
+    with quantified constraints is not supported") or range over arrays (NonConcurrentBuffer).  F44: a resource with a
+    non-constant cost function puts products of variables (cost(start) + cost(end)) * (end - start) into the resource-cost
+    indicator: nonlinear integer arithmetic"""
     # (arrays of a NonConcurrentBuffer have the same effect: thorough tier, every third call of one process)
-    return any(d["op"] == "buffer" for d in script) and \
-        any(d["op"] == "constraint" and d["c"][0] in ("loadBuffer", "unloadBuffer") for d in script)
+    if any(d["op"] == "buffer" for d in script) and \
+            any(d["op"] == "constraint" and d["c"][0] in ("loadBuffer", "unloadBuffer") for d in script):
+        return "F42"
+    if any(d["op"] in ("worker", "cumulative") and (d.get("cost") or ("const", 0))[0] != "const" for d in script) and \
+            any((d["op"] == "objective" and d["o"][0] == "resourceCost") or (d["op"] == "indicator" and d["i"][0] == "resourceCost")
+                for d in script):
+        return "F44"
+    return None
 
 
 def run_c07(script, rng, summary):
@@ -75,7 +83,7 @@ def run_c07(script, rng, summary):
         return {"what": f"incremental optimiser returned value {a.get('value')} but a valid schedule with value "
                         f"{a.get('better_value')} exists", "runs": [a, b]}
     if f42_region(script):
-        count(summary, "run_c07_builtin_not_compared_known_F42_region")
+        count(summary, f"run_c07_builtin_not_compared_known_{f42_region(script)}_region")
     if b.get("result") and b.get("better_status") == "sat" and not f42_region(script):
         return {"what": f"builtin optimiser returned value {b.get('value')} but a valid schedule with value "
                         f"{b.get('better_value')} exists", "runs": [a, b]}
@@ -114,10 +122,12 @@ def worst_first_probe(script, real, rng, summary, tag):
         count(summary, tag + "_worst_first_oracle")
         if adv.get("raised"):
             return {"what": f"incremental optimiser raised {adv['raised']} (worst-first oracle, {how})", "script": scr}
-        if adv.get("result") and adv.get("better_status") == "sat":
+        if adv.get("result") and adv.get("better_status") == "sat" and not adv.get("time_stop"):
             return {"what": f"incremental optimiser stopped at value {adv['value']} although a valid schedule with value "
                             f"{adv['better_value']} exists and z3 had not answered unsat (z3 answering with the worst "
                             f"admissible model each time; {how})", "script": scr, "oracle_answers": adv.get("answers")}
+        if adv.get("time_stop"):
+            count(summary, tag + "_worst_first_left_on_time_budget_not_compared")
         if adv.get("result"):
             count(summary, f"{tag}_worst_first_iterations_{min(len(adv.get('answers', [])), 12)}")
     return None
@@ -171,7 +181,7 @@ def weighted_probe(script, real, rng, summary):
         count(summary, "run_c07_weighted_sum_worst_first")
         if adv.get("raised"):
             return {"what": f"incremental optimiser raised {adv['raised']} (weighted sum {ws}, worst-first oracle)", "script": scr}
-        if adv.get("result") and adv.get("better_status") == "sat":
+        if adv.get("result") and adv.get("better_status") == "sat" and not adv.get("time_stop"):
             return {"what": f"weighted sum {ws}: incremental optimiser stopped at value {adv['value']} although a valid "
                             f"schedule with value {adv['better_value']} exists (z3 answering with the worst admissible "
                             f"model each time)", "script": scr, "oracle_answers": adv.get("answers")}
@@ -426,7 +436,7 @@ def run_c15(script, rng, summary):
     cands = [c for c in CONFIGS if ("logics" not in c or in_lia_fragment(script))]
     if nobj >= 1 and f42_region(script):
         cands = [c for c in cands if c.get("optimizer", "incremental") == "incremental"]
-        count(summary, "run_c15_builtin_not_compared_known_F42_region")
+        count(summary, f"run_c15_builtin_not_compared_known_{f42_region(script)}_region")
     if nobj > 1:
         # several objectives: only the weighted-sum readings are comparable
         cands = [c for c in cands if c.get("optimizer", "incremental") == "incremental" or c.get("optimize_priority") == "weight"]
